@@ -352,6 +352,9 @@ class Evaluator:
             if n > self.max_paths:
                 raise AnalysisError(f"path explosion in {fn.name} (> {self.max_paths})")
             st = State(self.hooks, assign)
+            if body is None:
+                for k_, v_ in _unpassed_new_defaults(self.fi).items():
+                    st.env[k_] = v_
             if params:
                 st.env.update(params)
             try:
@@ -549,6 +552,17 @@ class Evaluator:
                         d = _DESUGARED[key][1]
             if d is not None:
                 s = d
+            # `for i, x in enumerate(X[, start])` visits the elements of X; i is the position (+ start)
+            enum_target, enum_start = None, 0
+            if (isinstance(s.iter, ast.Call) and isinstance(s.iter.func, ast.Name) and s.iter.func.id == "enumerate" and len(s.iter.args) in (1, 2)
+                    and isinstance(s.target, ast.Tuple) and len(s.target.elts) == 2 and isinstance(s.target.elts[0], ast.Name)
+                    and all(k_.arg == "start" for k_ in s.iter.keywords) and len(s.iter.args) + len(s.iter.keywords) <= 2):
+                sv = s.iter.args[1] if len(s.iter.args) == 2 else s.iter.keywords[0].value if s.iter.keywords else None
+                if sv is None or (isinstance(sv, ast.Constant) and isinstance(sv.value, int)):
+                    enum_target, enum_start = s.target.elts[0], (sv.value if sv is not None else 0)
+                    s2 = ast.For(target=s.target.elts[1], iter=s.iter.args[0], body=s.body, orelse=s.orelse)
+                    ast.copy_location(s2, s)
+                    s = s2
             it = self.ev(s.iter, st)
             ittext = vtext(it)
             concrete = it if isinstance(it, (list, tuple)) else None
@@ -605,8 +619,15 @@ class Evaluator:
                         yield Sym(f"{ittext}[{n}]", tag=("item", ittext, n))
                     n += 1
 
+            pos = enum_start
+            exact = True
             for item in items():
                 self.assign(s.target, item, st)
+                if enum_target is not None:
+                    if isinstance(item, Sym) and item.tag and item.tag[0] == "item" and concrete is not None:
+                        exact = False  # position inside a `*xs` part of a list display: not a known number
+                    self.assign(enum_target, pos if exact else Sym(f"position({vtext(item)})"), st)
+                    pos += 1
                 try:
                     self.block(s.body, st)
                 except _Break:
@@ -887,6 +908,9 @@ class Evaluator:
         if isinstance(e, ast.BinOp):
             l = self.ev(e.left, st)
             r_ = self.ev(e.right, st)
+            if isinstance(l, bool) and isinstance(r_, bool) and isinstance(e.op, (ast.BitXor, ast.BitOr, ast.BitAnd)):
+                # decided truth values combine without a further case split
+                return (l ^ r_) if isinstance(e.op, ast.BitXor) else (l | r_) if isinstance(e.op, ast.BitOr) else (l & r_)
             if isinstance(e.op, ast.Add):
                 # string building: "lit" + x, f"..." + f"..." and the single f-string are one and the same text
                 lp, rp = _fparts(l), _fparts(r_)
@@ -995,8 +1019,33 @@ class Evaluator:
                         parts.append(("lit", sep))
                     parts.extend(_fparts(x))
                 return _fstring(parts, c)  # joining pieces of text is concatenating them
+        if isinstance(c.func, ast.Attribute) and c.func.attr == "isdisjoint" and len(c.args) == 1 and not c.keywords:
+            # X.isdisjoint(Y)  is  not any(y in X for y in Y)
+            src = ast.parse("any([_d0 in _X for _d0 in _Y])", mode="eval").body
+            comp = src.args[0]
+            comp.elt.comparators = [c.func.value]
+            comp.generators[0].iter = c.args[0]
+            ast.fix_missing_locations(ast.copy_location(src, c))
+            for x_ in ast.walk(src):
+                ast.copy_location(x_, c)
+            return not self.truth(src, st)
         if ftext in ("any", "all") and len(c.args) == 1 and not kwargs and isinstance(c.args[0], (ast.GeneratorExp, ast.ListComp)):
             g = c.args[0]
+            g0 = g.generators[0]
+            if (len(g.generators) == 1 and not g0.ifs and isinstance(g0.target, ast.Name) and isinstance(g0.iter, (ast.Tuple, ast.List, ast.Set))
+                    and 1 <= len(g0.iter.elts) <= 8 and all(isinstance(e, ast.Constant) for e in g0.iter.elts)):
+                # any(P(x) for x in (a, b)) over a literal display is P(a) or P(b); all(...) is P(a) and P(b)
+                vals = []
+                for e in g0.iter.elts:
+                    class _Sub(ast.NodeTransformer):
+                        def visit_Name(self, n, e=e, name=g0.target.id):
+                            return ast.copy_location(ast.Constant(value=e.value), n) if n.id == name else n
+                    import copy as _copy
+
+                    vals.append(_Sub().visit(_copy.deepcopy(g.elt)))
+                bo = ast.BoolOp(op=ast.Or() if ftext == "any" else ast.And(), values=vals) if len(vals) > 1 else vals[0]
+                ast.fix_missing_locations(ast.copy_location(bo, c))
+                return self.truth(bo, st)
             if isinstance(g.elt, ast.UnaryOp) and isinstance(g.elt.op, ast.Not):
                 # De Morgan over a comprehension: any(not P(x) ...) == not all(P(x) ...), all(not P ...) == not any(P ...)
                 inner = type(g)(elt=g.elt.operand, generators=g.generators)
@@ -1141,6 +1190,15 @@ class Evaluator:
             if len(c.args) == 2:
                 return self.ev(c.args[1], st)
             raise _Raise("StopIteration()")
+        if isinstance(c.func, ast.Attribute) and c.func.attr == "pop" and not c.args and not c.keywords and not as_stmt and re.fullmatch(r"[\w.]+", ftext):
+            # x = L.pop()  is  x = L[-1]; L.pop()
+            last = ast.parse("_[-1]", mode="eval").body
+            last.value = c.func.value
+            ast.copy_location(last, c)
+            ast.fix_missing_locations(last)
+            val = self.ev(last, st)
+            self.call(c, st, as_stmt=True)
+            return val
         argt = ", ".join([vtext(a) for a in args] + [f"{k}={vtext(v)}" for k, v in kwargs.items()])
         text = f"{ftext}({argt})"
         if as_stmt or not self.hooks.pure(ftext):
@@ -1411,6 +1469,82 @@ def _is_class_name(name, fi):
         if any(name in m.classes for m in repo.modules.values()):
             return True
     return bool(re.fullmatch(r"[A-Z][A-Za-z0-9]*[a-z][A-Za-z0-9]*", name)) and name not in ("None", "True", "False")
+
+
+_UNPASSED: dict = {}
+
+
+def _unpassed_new_defaults(fi):
+    """{parameter: default} for the optional parameters of `fi` that (1) the reviewed version of the function does
+    not have, (2) have a literal default, and (3) no call anywhere in the analysed package passes (by position, by
+    keyword, or possibly through * / **): such a parameter always holds its default, so the function is evaluated
+    with it bound (an added, not yet used option leaves every existing behaviour as it was)"""
+    if fi is None:
+        return {}
+    key = (fi.module.repo.root, fi.key)
+    if key in _UNPASSED:
+        return _UNPASSED[key]
+    out = {}
+    _UNPASSED[key] = out
+    try:
+        from . import review
+
+        ref = review.other_side(fi.module.repo)
+        rfi = ref.function(fi.key) if ref is not None and hasattr(ref, "function") else None
+        if rfi is None and ref is not None:
+            rfi = next((g for g in ref.all_functions() if g.key == fi.key), None)
+    except Exception:
+        rfi = None
+    if rfi is None:
+        return out
+    a = fi.node.args
+    old = {x.arg for x in rfi.node.args.posonlyargs + rfi.node.args.args + rfi.node.args.kwonlyargs}
+    pos = a.posonlyargs + a.args
+    cands = {}
+    for i, (arg, d) in enumerate(zip(pos[len(pos) - len(a.defaults):], a.defaults)):
+        cands[arg.arg] = (len(pos) - len(a.defaults) + i, d)
+    for arg, d in zip(a.kwonlyargs, a.kw_defaults):
+        if d is not None:
+            cands[arg.arg] = (None, d)
+    cands = {k: v for k, v in cands.items() if k not in old and isinstance(v[1], ast.Constant)}
+    if not cands:
+        return out
+    names = {fi.node.name}
+    is_method = fi.cls is not None and not fi.is_static()
+    sub_inits = set()
+    if fi.node.name == "__init__" and fi.cls is not None:
+        # constructed through the class (or a subclass that inherits / chains to this __init__)
+        names = {fi.cls.name.rsplit(".", 1)[-1]}
+        for m in fi.module.repo.modules.values():
+            for c in m.classes.values():
+                if any(u(b).rsplit(".", 1)[-1] == fi.cls.name.rsplit(".", 1)[-1] for b in c.node.bases):
+                    names.add(c.name.rsplit(".", 1)[-1])
+                    sub_inits |= {id(x) for x in ast.walk(c.node) if isinstance(x, ast.Call) and isinstance(x.func, ast.Attribute) and x.func.attr == "__init__"}
+    passed = set()
+    for m in fi.module.repo.modules.values():
+        for n in ast.walk(m.tree):
+            if not isinstance(n, ast.Call):
+                continue
+            if id(n) in sub_inits:
+                if n.keywords or len(n.args) > 1:
+                    passed |= set(cands)
+                continue
+            cn = n.func.attr if isinstance(n.func, ast.Attribute) else n.func.id if isinstance(n.func, ast.Name) else None
+            if cn not in names:
+                continue
+            if any(k.arg is None for k in n.keywords) or any(isinstance(x, ast.Starred) for x in n.args):
+                passed |= set(cands)
+                continue
+            for k in n.keywords:
+                passed.add(k.arg)
+            # positional: a bound call does not spell `self`; an unbound one (Class.method(obj, ..)) does - be generous
+            for name, (idx, _) in cands.items():
+                if idx is not None and len(n.args) + (1 if is_method else 0) > idx:
+                    passed.add(name)
+    for name, (_, d) in cands.items():
+        if name not in passed:
+            out[name] = d.value
+    return out
 
 
 def _is_f(v):
